@@ -75,6 +75,11 @@ def blanks_norm(s):
     return re.sub(r" +", " ", s).strip(" ")
 
 
+# other words of the same command, written with every quote tag: (text written, argument expected)
+NEIGHBOURS = [("pl", "pl"), ("\\$A", "$A"), ("\\|x", "|x"), ("'s q'", "s q"), ('"d q"', "d q"), ("''", ""), ("a\\ b", "a b")]
+_nb = ((), ())      # (before, after) index tuples for the case being judged
+
+
 def run_word(segs, quote, env, status, how):
     """segs: list of ('lit', text) | ('ref', form, name).  env: name -> value.
     how: 'export' (driver environment) | 'assign' (shell variables set in the line)"""
@@ -105,7 +110,9 @@ def run_word(segs, quote, env, status, how):
         extra = {k: "old-" + k for k in env}
         for k, v in env.items():
             pre += "%s='%s' ; " % (k, v)
-    line = "%svp_status %d m ; vp_argv %s%s%s" % (pre, status, q, word, q)
+    bef = "".join(NEIGHBOURS[i][0] + " " for i in _nb[0])
+    aft = "".join(" " + NEIGHBOURS[i][0] for i in _nb[1])
+    line = "%svp_status %d m ; vp_argv %s%s%s%s%s" % (pre, status, bef, q, word, q, aft)
     sb = _sb
     sb.reset_log()
     r = run_cicada(sb, ["-c", line], timeout=20.0, env_extra=extra, budget=5000)
@@ -125,6 +132,11 @@ def symptom(word, quote, env, status, r, recs):
     if len(recs) != 1:
         return "program-ran-%d-times" % len(recs)
     got = recs[0]["argv"][1:]
+    nbv, nav = [NEIGHBOURS[i][1] for i in _nb[0]], [NEIGHBOURS[i][1] for i in _nb[1]]
+    if nbv or nav:
+        if got[:len(nbv)] != nbv or (nav and got[len(got) - len(nav):] != nav) or len(got) < len(nbv) + len(nav):
+            return "neighbouring-word-changed-or-value-misplaced"
+        got = got[len(nbv):len(got) - len(nav)]
     if quote == "sq":
         return None if got == [word] else "single-quoted-text-changed"
     want = model(word, env, status, r.pid)
@@ -144,6 +156,24 @@ def value_class(name, env, classes):
 
 
 def judge(case):
+    global _nb
+    _nb = (tuple(case.get("before", ())), tuple(case.get("after", ())))
+    try:
+        v, sig, res = _judge(case)
+        if v == "violated" and (_nb[0] or _nb[1]):
+            # does the word fail on its own as well?  if not, the neighbours matter: sign that
+            _nb = ((), ())
+            v0, sig0, res0 = _judge(case)
+            if v0 == "held":
+                nbs = "+".join(sorted({NEIGHBOURS[i][0] for i in tuple(case.get("before", ())) + tuple(case.get("after", ()))}))
+                return (v, "C10:%s:only-next-to-other-words:%s:%s" % (case["quote"], nbs, sig.split(":")[-1]), res)
+            return (v0, sig0, res0)
+        return (v, sig, res)
+    finally:
+        _nb = ((), ())
+
+
+def _judge(case):
     segs = [tuple(s) for s in case["segs"]]
     quote, env, status, how, classes = case["quote"], case["env"], case["status"], case["how"], case["classes"]
     word, line, r, recs = run_word(segs, quote, env, status, how)
@@ -219,7 +249,11 @@ def gen_case(rng):
             segs.append(("ref", rng.choice(["plain", "brace"]), rng.choice(["?", "$"])))
     if not any(s[0] == "ref" for s in segs):
         segs.append(("ref", "plain", names[0]))
-    return {"segs": segs, "quote": rng.choice(["unq", "dq", "dq", "sq"]), "env": env, "classes": classes,
+    before, after = [], []
+    if rng.random() < 0.35:
+        before = [rng.randrange(len(NEIGHBOURS)) for _ in range(rng.randint(1, 2))]
+        after = [rng.randrange(len(NEIGHBOURS))] if rng.random() < 0.4 else []
+    return {"segs": segs, "quote": rng.choice(["unq", "dq", "dq", "sq"]), "env": env, "classes": classes, "before": before, "after": after,
             "status": rng.choice([0, 3, 127]), "how": rng.choice(["export", "assign", "export", "assign", "assign-then-export", "export-then-assign"])}
 
 
@@ -238,7 +272,8 @@ def run(tier, seed):
     rep.rule = ("words of 1..6 adjacent segments {literal, $N, ${N}, $?, $$} over names A AB A_ B X Y Z NOPE (prefixes "
                 "of one another, unset ones), unquoted / double-quoted / single-quoted, under environments (exported by "
                 "the driver, assigned in the line, assigned then exported with a new value, or exported then re-assigned) whose values are plain, blank-containing, $-references, $1, "
-                "regex-special, backslashes, braces, glob/tilde, empty, self- and mutually referential.  "
+                "regex-special, backslashes, braces, glob/tilde, empty, self- and mutually referential; a third of the words stand next to "
+                "1..3 other words of the same command written plain, quoted, empty or with an escaped $ / | / blank.  "
                 "Non-trivial = at least one reference; distinct by (word, quote, environment, how).")
     rep.assumptions = ["names are matched greedily as [A-Za-z0-9_]+ (as the implementation's own pattern does)",
                        "unquoted words are compared modulo runs of blanks (field splitting is not specified)",
